@@ -294,6 +294,13 @@ def corrupt_event(e, mode=None):
         c["leak"] = 1
         c["_corrupted"] = "a surviving goroutine claimed"
         return c
+    if mode == "C17D":
+        if ev == "cliD" and c.get("parsed") == 1 and c.get("exit") == 0 and any(x[0] == "exec" for x in c.get("log", [])):
+            k = max(j for j, x in enumerate(c["log"]) if x[0] == "exec")
+            c["log"][k][2] += 1
+            c["_corrupted"] = "program counter of the last exec line of the debug transcript + 1"
+            return c
+        return None
     if ev == "cli" and c.get("out") and c["out"][0]:
         c["out"][0][0] += 1
         c["_corrupted"] = "wins of warrior 1 + 1"
